@@ -40,6 +40,7 @@ var repoFiles = []string{
 
 type instr struct {
 	s     *staged
+	fn    string
 	base  string
 	skip  map[ast.Node]bool
 	ntemp int
@@ -48,7 +49,7 @@ type instr struct {
 
 func (in *instr) label(n ast.Node) *ast.BasicLit {
 	p := in.s.fset.Position(n.Pos())
-	return &ast.BasicLit{Kind: token.STRING, Value: strconv.Quote(fmt.Sprintf("%s:%d", in.base, p.Line))}
+	return &ast.BasicLit{Kind: token.STRING, Value: strconv.Quote(fmt.Sprintf("%s:%s:%d", in.base, in.fn, p.Line))}
 }
 
 func sel(pkg, name string) ast.Expr {
@@ -280,6 +281,7 @@ func instrumentFile(s *staged, base string, stats map[string]int) {
 		if !ok || fd.Body == nil {
 			continue
 		}
+		in.fn = fd.Name.Name
 		astutil.Apply(fd.Body, in.pre, nil)
 	}
 	astutil.AddImport(s.fset, s.file, rtBase+"vsched")
